@@ -41,7 +41,7 @@ type mutant struct {
 	Kind     string `json:"kind"` // break | equiv
 	Rule     string `json:"rule"` // rule expected to report (prefix match), optional
 	Note     string `json:"note,omitempty"`
-	All      bool   `json:"all,omitempty"`  // replace every occurrence of Old (renames)
+	All      bool   `json:"all,omitempty"` // replace every occurrence of Old (renames)
 	Also     []struct {
 		File string `json:"file"`
 		Old  string `json:"old"`
@@ -74,7 +74,7 @@ func loadMutants(verif, id string) []mutant {
 	idx, err := os.ReadFile(filepath.Join(verif, "regress", "INDEX.json"))
 	if err == nil {
 		var m map[string]struct {
-			Properties []string `json:"properties"`
+			Properties []string          `json:"properties"`
 			Rule       map[string]string `json:"rule"`
 		}
 		if json.Unmarshal(idx, &m) == nil {
